@@ -65,6 +65,7 @@ Inductive pub :=
 | PEndCont.      (* the `continuous enabled` item closed *)
 
 Inductive event :=
+| EvCall (t : nat) (c : call)       (* task t issues the API call c *)
 | EvHook (h : hookrec)
 | EvPub (p : pub)
 | EvRet (t : nat) (c : call) (r : result).
